@@ -5,6 +5,7 @@
 
 #include <etl/_algorithm/reverse.hpp>
 #include <etl/_concepts/floating_point.hpp>
+#include <etl/_cstddef/size_t.hpp>
 #include <etl/_math/ipow.hpp>
 #include <etl/_span/span.hpp>
 #include <etl/_type_traits/conditional.hpp>
@@ -52,17 +53,35 @@ template <floating_point Float, from_floating_point_options Options = from_float
 
     auto const whole = static_cast<int_type>(val);
     auto const frac  = val - static_cast<Float>(whole);
-    auto const pos   = toString(whole, res, 0);
+
+    // Get the value of fraction part upto given no.
+    // of points after dot. The third parameter
+    // is needed to handle cases like 233.007
+    auto const part = precision == 0
+                        ? int_type{0}
+                        : static_cast<int_type>(frac * static_cast<Float>(etl::ipow<10>(precision)));
+
+    // Everything written below (digits, decimal point, terminator) must fit into out
+    constexpr auto numDigits = [](int_type x, int minDigits) -> etl::size_t {
+        int n = 0;
+        while (x) {
+            ++n;
+            x = x / 10;
+        }
+        return static_cast<etl::size_t>(n < minDigits ? minDigits : n);
+    };
+    auto const needed = numDigits(whole, 0) + (precision == 0 ? 0U : 1U + numDigits(part, precision)) + 1U;
+    if (needed > out.size()) {
+        return {.end = out.data(), .error = from_floating_point_error::overflow};
+    }
+
+    auto const pos = toString(whole, res, 0);
 
     if (precision == 0) {
         return {};
     }
 
-    // Get the value of fraction part upto given no.
-    // of points after dot. The third parameter
-    // is needed to handle cases like 233.007
-    auto part = static_cast<int_type>(frac * static_cast<Float>(etl::ipow<10>(precision)));
-    res[pos]  = '.';
+    res[pos] = '.';
     toString(part, res + pos + 1, precision);
 
     return {.end = res + pos};
